@@ -76,7 +76,7 @@ impl DiameterClient {
                     .danger_accept_invalid_certs(!self.config.verify_cert)
                     .build()?,
             );
-            let tls_stream = tls_connector.connect(&self.address.clone(), stream).await?;
+            let tls_stream = tls_connector.connect(Self::host_of(&self.address), stream).await?;
             let (reader, writer) = tokio::io::split(tls_stream);
 
             // writer
@@ -103,6 +103,15 @@ impl DiameterClient {
                 msg_caches,
             })
         }
+    }
+
+    /// Returns the host part of a `host:port` address, without the brackets of an IPv6 literal.
+    fn host_of(address: &str) -> &str {
+        let host = match address.rfind(':') {
+            Some(i) if !address[i..].contains(']') => &address[..i],
+            _ => address,
+        };
+        host.trim_start_matches('[').trim_end_matches(']')
     }
 
     /// Handles incoming Diameter messages.
